@@ -54,25 +54,29 @@ WhereDiffer(a, b) ==
 \* a comparator seen from a version: what kind it is and where the version's major.minor.patch lies relative to it
 Shape(c, v) == [op |-> c.op, n |-> c.n, pre |-> HasPre(c), side |-> CmpTriple(v.nums, c.nums)]
 
+\* Every rejected case lists one item per *class* of disagreement (with the first witness of that class), so that
+\* a disagreement of a new kind is reported even when the same case also shows a recorded one.
+OrderClass(a, b, code) == [expected |-> CmpSem(a, b), got |-> code % 64, where |-> WhereDiffer(a, b)]
+
 Judge(c) ==
     CASE c.k = "svrow" ->
            LET a == V(c.a)
                bad == { j \in J : (c.codes[j] % 64) # ExpectedCode(CmpSem(a, V(j))) }
+               cls(j) == OrderClass(a, V(j), c.codes[j])
            IN IF ~(\A j \in J : V(j).ok) THEN [id |-> c.id, clause |-> "spec-cannot-parse-version"]
               ELSE IF bad = {} THEN Ok(c)
-              ELSE LET j == MinOf(bad) IN
-                   [id |-> c.id, clause |-> "SemVerOrder", witness |-> j, expected |-> CmpSem(a, V(j)), got |-> c.codes[j],
-                    where |-> WhereDiffer(a, V(j))]
+              ELSE [id |-> c.id, clause |-> "SemVerOrder",
+                    items |-> { [class |-> k, witness |-> MinOf({ j \in bad : cls(j) = k })] : k \in { cls(j) : j \in bad } }]
       [] c.k = "svtri" ->
            LET a == ParseSemVer(c.s[1]) b == ParseSemVer(c.s[2]) d == ParseSemVer(c.s[3])
                q == c.codes
-               exp == <<CmpSem(a, b), CmpSem(b, a), CmpSem(b, d), CmpSem(d, b), CmpSem(a, d), CmpSem(d, a)>>
                pairs == << <<a, b>>, <<b, a>>, <<b, d>>, <<d, b>>, <<a, d>>, <<d, a>> >>
-               bad == { n \in 1..6 : (q[n] % 64) # ExpectedCode(exp[n]) }
+               bad == { n \in 1..6 : (q[n] % 64) # ExpectedCode(CmpSem(pairs[n][1], pairs[n][2])) }
+               cls(n) == OrderClass(pairs[n][1], pairs[n][2], q[n])
            IN IF ~(a.ok /\ b.ok /\ d.ok) THEN [id |-> c.id, clause |-> "spec-cannot-parse-version"]
-              ELSE IF bad # {} THEN LET n == MinOf(bad) IN
-                   [id |-> c.id, clause |-> "SemVerOrder", witness |-> n, expected |-> exp[n], got |-> q[n],
-                    where |-> WhereDiffer(pairs[n][1], pairs[n][2])]
+              ELSE IF bad # {} THEN
+                   [id |-> c.id, clause |-> "SemVerOrder",
+                    items |-> { [class |-> k, witness |-> MinOf({ n \in bad : cls(n) = k })] : k \in { cls(n) : n \in bad } }]
               ELSE IF \E n \in 1..6 : ~WellFormedCode(q[n]) THEN [id |-> c.id, clause |-> "SemVerAxiomRelationsConsistent"]
               ELSE IF ~(Mirror(q[1], q[2]) /\ Mirror(q[3], q[4]) /\ Mirror(q[5], q[6])) THEN [id |-> c.id, clause |-> "SemVerAxiomMirror"]
               ELSE IF ~(Trans(q[1], q[3], q[5]) /\ Trans(q[4], q[2], q[6])) THEN [id |-> c.id, clause |-> "SemVerAxiomTransitive"]
@@ -81,18 +85,17 @@ Judge(c) ==
            LET req == ParseReq(c.r)
                acc == AsSet(c.acc)
                bad == { j \in J : InScope(req, V(j)) /\ ((j \in acc) # Meson(req, V(j))) }
+               \* when the rule rejects: the comparators that reject; when it accepts: all of them
+               cls(j) == LET v == V(j)
+                             exp == Meson(req, v)
+                             blame == { n \in 1..Len(req) : exp \/ ~Within(req[n], v, TRUE) }
+                         IN [expected |-> exp, got |-> (j \in acc), vpre |-> HasPre(v), gate |-> PreGate(req, v),
+                             needspre |-> HasPre(v) /\ ~NamesPre(req),
+                             shapes |-> { Shape(req[n], v) : n \in blame }, cargo |-> Cargo(req, v)]
            IN IF ~ReqOk(req) \/ ~(\A j \in J : V(j).ok) THEN [id |-> c.id, clause |-> "spec-cannot-parse-requirement"]
               ELSE IF bad = {} THEN Ok(c)
-              ELSE LET j == MinOf(bad)
-                       v == V(j)
-                       exp == Meson(req, v)
-                       \* when the rule rejects: the comparators that reject; when it accepts: all of them
-                       blame == { n \in 1..Len(req) : exp \/ ~Within(req[n], v, TRUE) }
-                   IN [id |-> c.id, clause |-> IF HasPre(v) /\ ~NamesPre(req) THEN "PreReleaseNeedsPre" ELSE "ReqMatch",
-                       witness |-> j, expected |-> exp, got |-> (j \in acc), vpre |-> HasPre(v),
-                       gate |-> PreGate(req, v),
-                       shapes |-> { Shape(req[n], v) : n \in blame },
-                       cargo |-> Cargo(req, v)]
+              ELSE [id |-> c.id, clause |-> "ReqMatch",
+                    items |-> { [class |-> k, witness |-> MinOf({ j \in bad : cls(j) = k })] : k \in { cls(j) : j \in bad } }]
       [] c.k = "cfg" ->
            LET cfgs == IF c.cfgs = <<>> THEN File.configs ELSE c.cfgs
                iscfg == IsCfgText(c.text)
@@ -100,18 +103,17 @@ Judge(c) ==
                strict == Parse(toks, FALSE)
                lax == Parse(toks, TRUE)
                bad == { n \in 1..Len(cfgs) : c.got[n] \notin AllowedWith(strict, lax, cfgs[n]) }
+               cls(n) == [got |-> c.got[n], allowed |-> AllowedWith(strict, lax, cfgs[n]),
+                          kind |-> IF c.got[n] = "X" THEN "CfgRaisedOtherException"
+                                   ELSE IF strict.ok /\ c.got[n] = "E" THEN "CfgWellFormedRejected"
+                                   ELSE IF strict.ok THEN "CfgWrongValue"
+                                   ELSE "CfgMalformedNotRejected"]
            IN IF ~iscfg THEN [id |-> c.id, clause |-> "spec-not-a-cfg-text"]
               ELSE IF bad = {} THEN Ok(c)
-              ELSE LET n == MinOf(bad) IN
-                   [id |-> c.id,
-                    clause |-> IF c.got[n] = "X" THEN "CfgRaisedOtherException"
-                               ELSE IF strict.ok /\ c.got[n] = "E" THEN "CfgWellFormedRejected"
-                               ELSE IF strict.ok THEN "CfgWrongValue"
-                               ELSE "CfgMalformedNotRejected",
-                    witness |-> n, got |-> c.got[n], allowed |-> AllowedWith(strict, lax, cfgs[n]),
+              ELSE [id |-> c.id, clause |-> "Cfg",
                     stringHasDelimiter |-> StringHasDelimiter(toks), badChar |-> HasBadChar(toks),
-                    badCharCode |-> IF HasBadChar(toks) THEN toks[Len(toks)].s[1] ELSE 0,
-                    ntoks |-> Len(toks)]
+                    badCharCode |-> IF HasBadChar(toks) THEN toks[Len(toks)].s[1] ELSE 0, ntoks |-> Len(toks),
+                    items |-> { [class |-> k, witness |-> MinOf({ n \in bad : cls(n) = k })] : k \in { cls(n) : n \in bad } }]
       [] OTHER -> [id |-> c.id, clause |-> "unknown-case-kind"]
 
 Init == i \in 1..Len(Cases) /\ done = FALSE
